@@ -1,6 +1,7 @@
 """C29 Protection devices trip later for smaller currents, never earlier — E1 enumeration of devices x current grid."""
 import copy
 import math
+import os
 
 import numpy as np
 import pandas as pd
@@ -10,7 +11,7 @@ from mc import core, k_prot as kp
 PROPERTY = "C29"
 LEVEL = "exploration"
 META = {
-    "text": "Every built-in fuse std type (each selectable curve) and every generated fuse characteristic (x subsets of a 6-value set x non-increasing t selections from a multiset with a tie, Pchip and linear log-log interpolation) as well as OC relays DTOC/IDMT/IDTOC x 4 IEC curves x 3 switches x graded time-setting alphabets (list with topological grading, manual DataFrame in natural and permuted row order) x pick-up alphabets (automatic factors, manual DataFrame natural / permuted) are built with the real classes and driven over a sorted current grid (support points, arithmetic and geometric midpoints, +-1..3 ulp around i_start / i_stop / every pick-up, multiples of the pick-up, decades 1 A .. 100 kA), ascending and descending, in both scenarios; on every call: reported time non-increasing along the grid (no trip = +inf), trip flag true exactly when the current is >= i_start (fuse) / > lowest pick-up (relay), activation value bitwise equal to the value written into the table of the chosen scenario.",
+    "text": "Every built-in fuse std type (each selectable curve) and every generated fuse characteristic (x subsets of a 6-value set x non-increasing t selections from a multiset with a tie, Pchip and linear log-log interpolation) as well as OC relays DTOC/IDMT/IDTOC x 4 IEC curves x 2 (thorough 3) switches x graded time-setting alphabets (list with topological grading, manual DataFrame in natural and permuted row order) x pick-up alphabets (automatic factors, manual DataFrame natural / permuted) are built with the real classes and driven over a sorted current grid (support points, arithmetic and geometric midpoints, +-1..3 ulp around i_start / i_stop / every pick-up, multiples of the pick-up, decades 1 A .. 100 kA), ascending and descending, in both scenarios; on every call: reported time non-increasing along the grid (no trip = +inf), trip flag true exactly when the current is >= i_start (fuse) / > lowest pick-up (relay), activation value bitwise equal to the value written into the table of the chosen scenario.",
     "note": "Continuous domain: decided on the stated finite device alphabets and current grids only. The current is injected through the narrow seam the devices read (net.res_switch_sc.ikss_ka for 'sc', net.res_switch.i_ka for 'pp'; all other cells hold decoys that flip the decision); the thorough tier additionally drives fuses through real calc_sc / runpp + calculate_protection_times. Preconditions of the statement are evaluated on the user's inputs: non-monotone characteristic data and inconsistently graded settings are counted, not judged for monotonicity. Devices whose constructor raises are counted only. Tolerance: 1e-9 relative on the time comparison.",
     "technique": "bounded exhaustive input enumeration (device alphabet x current grid, both call orders) on the real protection classes with monotonicity / threshold / table-value oracles",
     "design_ref": "DESIGN.md §3 E1, §4 C29",
@@ -98,10 +99,12 @@ def _drive(net, dev, sw, grid, scenario, decoy_fn, use_public):
     for pname, seq in (("asc", grid), ("desc", grid[::-1])):
         for i in seq:
             kp.inject(net, scenario, sw, i, decoy_fn(i))
-            res = dev.protection_function(net, scenario=scenario)
-            res = dict(res)
+            try:
+                res = dict(dev.protection_function(net, scenario=scenario))
+            except Exception as e:      # a built device that cannot answer: judged by the trip clause (no decision)
+                res = {"trip_melt": None, "trip_melt_time_s": float("nan"), "_raised": "%s: %s" % (type(e).__name__, str(e)[:80])}
             res["_has_tripped"] = bool(dev.has_tripped())
-            if use_public and pname == "asc":
+            if use_public and pname == "asc" and "_raised" not in res:
                 df = calculate_protection_times(net, scenario=scenario)
                 row = df[df.switch_id == sw].iloc[0]
                 res["_public"] = (bool(row.trip_melt), float(row.activation_parameter_value), float(row.trip_melt_time_s))
@@ -127,6 +130,12 @@ def _judge_common(obs, scenario, sw, trip_expected, base_tokens, klass, check_mo
                 vs.append(core.violation("time_non_increasing", br, tokens=base_tokens + ["scenario=" + scenario], klass=klass))
         for i, r in seq:
             n += 1
+            if "_raised" in r:
+                if "raised" not in done:
+                    done.add("raised")
+                    vs.append(core.violation("trip_iff_above_pickup", {"i_ka": i, "protection_function_raised": r["_raised"], "scenario": scenario, "pass": pname},
+                                             tokens=base_tokens + ["scenario=" + scenario, "raised"], klass=klass))
+                continue
             if check_trip:
                 exp = trip_expected(i)
                 got = r.get("trip_melt")
@@ -403,6 +412,11 @@ def explore(tier, seed):
     kp.fuse_net()
     kp.relay_net()
     cases = gen_cases(tier)
+    stride = int(os.environ.get("VERIF_CASE_STRIDE", "1") or 1)   # screening aid for seeded-mutation runs only: every n-th case
+    if stride > 1:
+        cases = cases[::stride]
+        rep.exhaustive = False
+        rep.extra["case_stride"] = stride
     rep.rule = ("E1: device alphabet (31 built-in fuse std types x curve_select, generated fuses: x subsets of %s x non-increasing t "
                 "selections of %s x {Pchip, linear}; OC relays {DTOC, IDMT, IDTOC} x 4 curves x switches x time-setting alphabet x pick-up "
                 "alphabet) x the device's sorted current grid x {sc, pp} x {ascending, descending}; a device is distinct+non-trivial when it "
